@@ -100,9 +100,10 @@ function compileTexts(texts, scoped) {
       // (a literal may contain a line break: diagnostics are attributed by the lines the template occupies)
       const firstLine = src.split('\n').length - 1
       layout.push({ job: jobs.length, name: 't' + k, firstLine, lastLine: firstLine + t.split('\n').length - 1 })
-      // scoped: the names a, b, c are the items of three nested loops instead of data fields
+      // scoped: the names a, b, c are the items of three nested loops instead of data fields; an outermost loop declares a and b
+      // as well (item and index), which the inner loops shadow
       src += scoped
-        ? `<template name="t${k}"><block wx:for="{{la}}" wx:for-item="a"><block wx:for="{{lb}}" wx:for-item="b"><block wx:for="{{lc}}" wx:for-item="c"><a v=${q}{{ ${t} }}${q}/></block></block></block></template>\n`
+        ? `<template name="t${k}"><block wx:for="{{lz}}" wx:for-item="a" wx:for-index="b"><block wx:for="{{la}}" wx:for-item="a"><block wx:for="{{lb}}" wx:for-item="b"><block wx:for="{{lc}}" wx:for-item="c"><a v=${q}{{ ${t} }}${q}/></block></block></block></block></template>\n`
         : `<template name="t${k}"><a v=${q}{{ ${t} }}${q}/></template>\n`
     })
     jobs.push({ id: jobs.length, files: [['f', src]], want: ['groups'] })
@@ -132,7 +133,7 @@ function compileTexts(texts, scoped) {
       eval(data) {
         return outcomeOf(() => {
           const rt = RT.makeRuntime()
-          const r = proc(rt.R, true, scoped ? { la: [data.a], lb: [data.b], lc: [data.c] } : data, undefined)
+          const r = proc(rt.R, true, scoped ? { lz: ['shadowed outer item'], la: [data.a], lb: [data.b], lc: [data.c] } : data, undefined)
           let nodes = rt.runChildren(r.C)
           while (nodes.length && nodes[0].t !== 'el') nodes = nodes[0].children
           if (!nodes.length) throw new Error('no element created')
